@@ -11,6 +11,15 @@ def lastOf {κ ν} [DecidableEq κ] : List (κ × ν) → κ → Option ν
     | some v => some v
     | none => if e.1 = k then some e.2 else none
 
+/-- a duplicate-free list with the same members (order is irrelevant: the property is about multisets of distinct packages) -/
+def dedup {α} [DecidableEq α] : List α → List α
+  | [] => []
+  | x :: xs => if x ∈ xs then dedup xs else x :: dedup xs
+
+/-- the pairs (k, f k) for the distinct keys of `ks` on which `f` is defined -/
+def tabulate {κ ν} [DecidableEq κ] (ks : List κ) (f : κ → Option ν) : List (κ × ν) :=
+  (dedup ks).filterMap fun k => (f k).map fun x => (k, x)
+
 namespace PackageLock
 
 /-- the map write of one v1 entry (`depEntry` never panics — `depEntry_total` — so the default is never used) -/
@@ -29,6 +38,19 @@ end
 /-- the (key, details) writes of a v2/v3 `packages` map: every entry except the root project `""` -/
 def pkgWrites (ps : List LPkg) : List (Str × Details) := (ps.filter (fun p => !p.path.isEmpty)).map pkgEntry
 
+/-- the map writes the document calls for: `packages` (root project excluded) when present, else the flattened
+`dependencies` tree -/
+def writes (d : Doc) : List (Str × Details) :=
+  match d.packages with
+  | some ps => pkgWrites ps
+  | none => flatDeps d.dependencies
+
+/-- what a scan must report, executable (Drivers/C03 prints it): per distinct de-duplication key the LAST write.
+MODEL SEMANTICS inside: what one entry denotes (`entryOf` → `depEntry`, `pkgWrites` → `pkgEntry`: aliases, file: and git
+versions) is the extractor's own per-entry function, not an independent grammar. -/
+def expected (d : Doc) : List (Str × Details) :=
+  tabulate ((writes d).map (·.1)) (lastOf (writes d))
+
 end PackageLock
 
 namespace Pipfile
@@ -37,7 +59,33 @@ def pinned (e : Str × Str) : Option NV :=
   match e.2 with
   | '=' :: '=' :: c :: rest => some ⟨e.1, c :: rest⟩
   | _ => none
+
+/-- the de-duplication key of the extractor's map -/
+def keyNV (nv : NV) : Str := nv.name ++ '@' :: nv.version
+def pinnedKV (e : Str × Str) : Option (Str × NV) := (pinned e).map fun nv => (keyNV nv, nv)
+
+/-- what a scan must report, executable: the pinned entries of `default` then `develop`, the first one per `name@version` key -/
+def expected (d : Doc) : List (Str × NV) :=
+  let l := (d.default ++ d.develop).filterMap pinnedKV
+  tabulate (l.map (·.1)) (lookup l)
 end Pipfile
+
+namespace PackagesLock
+/-- decoded document with the entry type the NuGet lock file carries: framework ↦ (id, resolved, type) -/
+abbrev TDoc := List (Str × List (Str × Str × Str))
+def TDoc.toDoc (d : TDoc) : Doc := d.map fun fw => (fw.1, fw.2.map fun e => (e.1, e.2.1))
+
+/-- every (id, resolved version) the file lists under any target framework -/
+def listed (d : Doc) : List NV := d.flatMap fun fw => fw.2.map fun p => ⟨p.1, p.2⟩
+
+/-- what a scan must report: the DISTINCT (id, version) pairs — NuGet resolves every target framework on its own, so one id
+can be listed at different versions (two packages) or at the same version (one package) -/
+def expected (d : Doc) : List NV := dedup (listed d)
+
+/-- the same for a document with entry types: a `"type": "Project"` entry is a project reference, not a NuGet package -/
+def expectedT (d : TDoc) : List NV :=
+  dedup (d.flatMap fun fw => (fw.2.filter fun e => e.2.2 ≠ "Project".toList).map fun e => ⟨e.1, e.2.1⟩)
+end PackagesLock
 
 namespace GoMod
 /-- one `replace` directive seen from a single requirement: its ORIGINAL key and its current value -/
@@ -50,6 +98,15 @@ def keyOf (r : Str × Str) : Str × Str := (r.1, trimPrefixV r.2)
 /-- the package a `require` line ends up as, after all `replace` directives in file order -/
 def finalOf (d : Doc) (r : Str × Str) : NV :=
   (d.replaces.foldl step (keyOf r, ⟨r.1, trimPrefixV r.2⟩)).2
+
+def stdlibKey : Str × Str := ("stdlib".toList, [])
+
+/-- what a scan must report, executable: `stdlib` at the toolchain / go version when there is one, and what every `require`
+line ends up as. MODEL SEMANTICS inside: `step` is the body of the extractor's `applyReplace` (replace directives are applied
+in file order to the current name, so `a => b`, `b => c` reports `c`), not Go's own replace semantics. -/
+def expected (d : Doc) : List NV :=
+  dedup ((if stdlibVersion d ≠ [] then [⟨"stdlib".toList, stdlibVersion d⟩] else []) ++
+    (d.requires.filter fun r => decide (stdlibVersion d = [] ∨ keyOf r ≠ stdlibKey)).map (finalOf d))
 end GoMod
 
 end Scalibr.Lockfiles
